@@ -1217,6 +1217,15 @@ class Sim(object):
             self.host_mode = mode
         elif env_garbage:
             self.host_mode = None
+        env_other_case = (not cal_opt and env.get("cal") and
+                          env["cal"] not in model.BASE and not env_garbage)
+        if env_other_case and not status.startswith("ok"):
+            # the documented values are written in lower case; the pinned
+            # tree also takes 'Gregorian' -- an implementation that does not
+            # is outside what the property states (like a garbage value)
+            self.count("skipped.env_other_case_refused")
+            self.host_mode = None
+            return
         # -- universal: never a traceback for an argument problem
         if status.startswith("raise:") and not env_garbage:
             self.violate("traceback", kind, step_no, argv=argv,
